@@ -13,6 +13,9 @@ def simplify_fmt(I, ctx, f):
     # single symbolic string with empty literal pieces: the string itself
     nonempty = [p for p in parts if not (isinstance(p, str) and p == "")]
     if len(nonempty) == 1 and is_str(nonempty[0]): return nonempty[0]
+    # literal prefix + one string: a structured string (e.g. format!("cw20:{}", addr))
+    if len(nonempty) == 2 and isinstance(nonempty[0], str) and is_str(nonempty[1]):
+        return ctx.shaped("pre", nonempty[0], nonempty[1])
     return FmtStr(parts)
 
 
@@ -29,4 +32,18 @@ def str_method(I, ctx, meth, s, args, callee, crate):
             if isinstance(p, str): return p in s
         if meth == "to_lowercase": return s.lower()
         if meth == "to_uppercase": return s.upper()
+    if meth == "starts_with":
+        p = I.deref(ctx, args[1])
+        if isinstance(p, str): return ctx.str_starts_with(s, p)
+    if meth == "get":
+        rng = I.deref(ctx, args[1])
+        if isinstance(rng, Struct) and rng.ty == "RangeFrom" and isinstance(rng.fields[0], int):
+            r = ctx.str_after_prefix(s, rng.fields[0])
+            return NONE if r is None else Some(r)
+    if meth == "splitn":
+        n, sep = I.deref(ctx, args[1]), I.deref(ctx, args[2])
+        sep = sep.data if isinstance(sep, Opaque) and sep.tag == "char" else sep
+        if n == 3 and isinstance(sep, str):
+            from .std import make_iter
+            return make_iter(list(ctx.str_split3(s, sep)))
     raise Unsupported(f"str::{meth} on {s!r}")
